@@ -9,7 +9,7 @@ separately."""
 import itertools
 import json
 
-from .. import cfg, flow, errflow
+from .. import cfg, flow, errflow, inline, typestate
 
 C = "minijinja::vm::context::Context::"
 PAIRS = [
@@ -18,6 +18,52 @@ PAIRS = [
     ("minijinja::vm::state::BlockStack::push", "minijinja::vm::state::BlockStack::pop"),
     (C + "push_frame", C + "pop_frame"),
 ]
+
+
+
+PAIR_NAMES = ("incr_depth", "decr_depth", "take_closure", "reset_closure", "push", "pop", "push_frame", "pop_frame",
+              "begin_capture", "end_capture", "eval_state", "with_execution_state", "get", "eval_impl", "call_block", "eval_macro")
+
+
+def host_view(prog, f):
+    """f with the private helpers an opener / closer may have been moved into spliced in"""
+    return inline.view(prog, f, keep=PAIR_NAMES)
+
+
+def analysed_in_callers(prog, f):
+    """f is a crate-private helper and every function that calls it is analysed with f's body spliced in"""
+    sites = prog.callers().get(f.path, [])
+    return (not f.is_pub) and bool(sites) and all(f.path in inline.inlined_helpers(host_view(prog, c.fn)) for c in sites)
+
+
+def paths_balance(prog, f, op, cl, allow_open_on_err=False):
+    """path-sensitive re-examination of one pair in (the helper-transparent view of) f: returns
+    (closer_without_opener, opener_without_closer): lists of block numbers, empty when every path is balanced"""
+    v = host_view(prog, f)
+    early, late = [], []
+
+    def on_call(c, st, val):
+        if c.name == op:
+            ty = v.locals[c.dest["l"]] if (c.dest is not None and "p" not in c.dest) else {}
+            if ty.get("adt") == "core::result::Result":
+                return [(min(st + 1, 3), ("Ok",)), (st, ("Err",))]
+            if ty.get("s") == "bool":
+                return [(min(st + 1, 3), ("B", "1")), (st, ("B", "0"))]
+            return [(min(st + 1, 3), None)]
+        if c.name == cl:
+            if st == 0:
+                early.append(c.bb)
+            return [(max(st - 1, 0), None)]
+        return None
+
+    def on_return(st, variants, bb):
+        if st > 0 and not (allow_open_on_err and variants is not None and set(variants) == {"Err"}):
+            late.append(bb)
+    r = typestate.explore(prog, v, 0, on_call, on_return)
+    if r.budget_hit:
+        return [-1], [-1]
+    paths_balance.ran = r.ran
+    return sorted(set(early)), sorted(set(late))
 
 
 def success_blocks(f, o):
@@ -73,6 +119,14 @@ def check_closers(ctx, prog, tag, rule, only=None, why=""):
             if not closers or f.path in (op, cl):
                 continue
             opens = f.calls_to(op)
+            if not opens and analysed_in_callers(prog, f):
+                continue        # the closing half of a pair split over helpers: decided where the halves meet
+            if not opens and f.kind == "closure" and f.root and prog.has_fn(f.root):
+                # an undo handed to a combinator (`.map_err(|e| { pop_frame(); e })`): it runs on the side of the Result on
+                # which std calls it - decided on the paths of the function that builds the closure
+                early_, _ = paths_balance(prog, prog.fn(f.root), op, cl)
+                if f.path in getattr(paths_balance, "ran", ()) and not early_:
+                    continue
             if cl.endswith("::pop_frame") and f.calls_to("minijinja::compiler::instructions::Instructions::get"):
                 continue        # the interpreter loop pops what *another instruction* pushed: paired by C05.B1 / B5
             if not opens and cl.endswith("::reset_closure"):
@@ -94,6 +148,12 @@ def check_closers(ctx, prog, tag, rule, only=None, why=""):
                     if c.bb in reach:
                         bad = dict(zip(keys, assign)) if keys else {}
                         break
+                if bad is not None:
+                    # the success of the opener may live in a value (`if rv.is_ok()`, `.map_err(|e| { undo; e })`): walk the
+                    # paths with the variants of Result locals known
+                    early, _ = paths_balance(prog, f, op, cl)
+                    if not early:
+                        bad = None
                 ctx.ob(rule, "%s%s|%s" % (tag, f.path.replace("minijinja::vm::", ""), cl.split("::")[-1]), bad is None,
                        "%s is reachable in %s without a successful %s before it on that path%s%s" % (
                            cl.split("::")[-1], f.path.split("::", 2)[-1], op.split("::")[-1],
